@@ -2,7 +2,7 @@ CONSTANTS
   Cfgs <- C01Cfgs
   Apis = {"query", "search", "gai"}
   Nests = {"none", "cancel", "query"}
-  Kinds = {"ok", "servfail", "badcookie"}
+  Kinds = {"ok", "nx", "servfail", "stale_ok"}
   Faults = {"sendto"}
   Extras = {"cancel", "timeout"}
   MaxReq = 2
